@@ -383,7 +383,7 @@ def run(tier):
         rule="one Kani harness per (type body with helper attributes, family of equivalent requests): the same type is derived through the attribute macro with a merged list, "
              "through #[derive(Ex)], with the list split / reordered over several derive_ex attributes, and with supersets of co-derived traits; all values symbolic; every derived "
              "method must agree across the copies; plus E3 obligations on the entry functions, DeriveEntry::from_root and from_args_list",
-        bounds="5 type bodies (comparison with key/reverse/ignore/by, PartialOrd without Ord, Hash alone with eq/ord attributes, Clone+Default with values) x up to 6 equivalent requests; "
+        bounds="8 type bodies (comparison with key/reverse/ignore/by, PartialOrd without Ord, Hash alone with eq/ord attributes, Clone+Default with values, ...) x up to 8 equivalent requests (merged, split, one per list, reordered, split with a doc comment and a foreign attribute between the lists, both entry points); PartialOrd/PartialEq alone vs with Ord/Eq/Hash/Clone alongside on a partially ordered field; "
                "E3: <=2 lists x <=2 items",
         outside="token-for-token equality of the expansions; the order in which impls appear in the output beyond the order of DeriveEntry values (from_args_list) and the per-entry loop (C05)",
         functions=["all derived methods of the programs above", "build_from_derive_input", "build_by_item_struct", "build_by_item_enum", "DeriveEntry::from_root", "DeriveEntry::from_args_list"],
